@@ -40,9 +40,12 @@ def main() -> None:
     seq = seqs.build_sequence(small_spec(natoms, dur))
     cfg = _cfg(kind)
     log = open(os.path.join(workdir, "record.jsonl"), "w") if mode == "record" else None
-    state = {"n": 0, "save_calls": 0, "in_save": 0}
+    state = {"n": 0, "save_calls": 0, "in_save": 0, "seq": 0}
     save_code = MPSBackendImpl.save_simulation.__code__
     gs_code = MPSBackendImpl.__getstate__.__code__
+    import emu_mps as _pkg
+    repo_root = os.path.dirname(os.path.dirname(os.path.abspath(_pkg.__file__))) + os.sep
+    instrumented = {save_code}
 
     def open_names() -> list:
         names = []
@@ -81,19 +84,36 @@ def main() -> None:
     TOOL = mon.DEBUGGER_ID
     mon.use_tool_id(TOOL, "verif-c27")
 
+    # The instruction counter runs over save_simulation AND over every function of the package it calls (helpers a
+    # refactoring may introduce): PY_START is switched on globally for the duration of a save and instruments any code
+    # object of the repository tree it meets (the hook module itself excepted).
     def on_start(code, offset):
         if code is save_code:
             state["save_calls"] += 1
             state["in_save"] += 1
-        elif code is gs_code and state["in_save"]:
+            if state["in_save"] == 1:
+                mon.set_events(TOOL, mon.events.PY_START)
+        elif code is gs_code and state["in_save"] > 0:
             tick("getstate", code.co_firstlineno, 0)
+        elif state["in_save"] > 0 and code not in instrumented and code.co_filename.startswith(repo_root) \
+                and not code.co_filename.endswith("_verif.py"):
+            instrumented.add(code)
+            mon.set_local_events(TOOL, code, mon.events.INSTRUCTION)
 
     def on_instr(code, offset):
-        tick("op", 0, offset)
+        if state["in_save"] > 0:
+            tick("op", 0, offset)
+
+    def on_leave(code, *a):
+        if code is save_code:
+            state["in_save"] -= 1
+            if state["in_save"] == 0:
+                mon.set_events(TOOL, 0)
 
     mon.register_callback(TOOL, mon.events.PY_START, on_start)
     mon.register_callback(TOOL, mon.events.INSTRUCTION, on_instr)
-    mon.set_local_events(TOOL, save_code, mon.events.PY_START | mon.events.INSTRUCTION)
+    mon.register_callback(TOOL, mon.events.PY_RETURN, on_leave)
+    mon.set_local_events(TOOL, save_code, mon.events.PY_START | mon.events.INSTRUCTION | mon.events.PY_RETURN)
     mon.set_local_events(TOOL, gs_code, mon.events.PY_START)
 
     def audit(event, args):
@@ -101,10 +121,12 @@ def main() -> None:
             return
         if event in ("open", "os.rename", "os.remove") and str(args[0]).endswith((".ndjson", ".jsonl")):
             return
+        if event in ("open", "os.rename", "os.remove"):
+            state["seq"] += 1
         if event == "open":
             path, m, _ = args
             if isinstance(m, str) and any(c in m for c in "wax+") and str(path).startswith(workdir):
-                log.write(json.dumps({"fsop": "create", "dst": os.path.basename(str(path)), "n": state["n"], "save": state["save_calls"]}) + "\n")
+                log.write(json.dumps({"fsop": "create", "dst": os.path.basename(str(path)), "n": state["n"], "seq": state["seq"], "save": state["save_calls"]}) + "\n")
         elif event == "os.rename" and str(args[0]).startswith(workdir):
             # is the source still held open for writing by this process?  (then its data may still sit in a user-space buffer)
             src_open = False
@@ -117,13 +139,15 @@ def main() -> None:
                         pass
             except OSError:
                 pass
-            log.write(json.dumps({"fsop": "rename", "src": os.path.basename(str(args[0])), "dst": os.path.basename(str(args[1])), "n": state["n"], "save": state["save_calls"], "src_open": src_open}) + "\n")
+            log.write(json.dumps({"fsop": "rename", "src": os.path.basename(str(args[0])), "dst": os.path.basename(str(args[1])), "n": state["n"], "seq": state["seq"], "save": state["save_calls"], "src_open": src_open}) + "\n")
         elif event == "os.remove" and str(args[0]).startswith(workdir):
-            log.write(json.dumps({"fsop": "remove", "dst": os.path.basename(str(args[0])), "n": state["n"], "save": state["save_calls"]}) + "\n")
+            log.write(json.dumps({"fsop": "remove", "dst": os.path.basename(str(args[0])), "n": state["n"], "seq": state["seq"], "save": state["save_calls"]}) + "\n")
 
     sys.addaudithook(audit)
     res = MPSBackend(seq, config=cfg).run()
-    mon.set_local_events(TOOL, save_code, 0)
+    mon.set_events(TOOL, 0)
+    for c_ in instrumented:
+        mon.set_local_events(TOOL, c_, 0)
     mon.set_local_events(TOOL, gs_code, 0)
     if log is not None:
         import torch as _t
